@@ -217,26 +217,49 @@ class IxWP(nvwp.WP):
         raise Unsupported(f'{self.name}: expression of kind {n.get("kind")} is not a modelled iterator')
 
     def rng(self, node):
-        """(seeded: Bool term, seed: Int term) of an rng expression: make_rng(x) or a variable initialised from it"""
+        """(seeded: Bool term, seed: Int term) of an rng expression: make_rng(x), rng_t{x}, or a variable initialised from one.
+        Anything that is NOT a function of the arguments -- a namespace-scope / static generator, a seed read from a global,
+        std::random_device -- is an UNSEEDED generator (seeded = false): the obligation at its use then fails by name instead of the
+        extraction breaking."""
         n = look(node)
+        unseeded = V('rng', 'Rng', ('false', '0'))
         if n.get('kind') == 'CallExpr' and look(n['inner'][0]).get('referencedDecl', {}).get('name') == 'make_rng':
             self.note('make_rng')
             if len(n['inner']) < 2 or n['inner'][1].get('kind') == 'CXXDefaultArgExpr' or look(n['inner'][1]).get('kind') == 'CXXDefaultArgExpr':
-                return V('rng', 'Rng', ('false', '0'))        # make_rng(): seeded from std::random_device
+                return unseeded                                  # make_rng(): seeded from std::random_device
             a = look(n['inner'][1])
             if a.get('kind') == 'CXXConstructExpr' and not a.get('inner'):
-                return V('rng', 'Rng', ('false', '0'))        # make_rng(seed_t{}): empty optional -> random_device
+                return unseeded                                  # make_rng(seed_t{}): empty optional -> random_device
             if a.get('kind') == 'CXXConstructExpr' and len(a['inner']) == 1:
                 a = a['inner'][0]
-            s = self.ev(a)
-            if s.s != 'Int':
-                raise Unsupported('make_rng argument is not an integer')
-            return V('rng', 'Rng', ('true', s.t))
+            return self.seeded_from(a)
+        if n.get('kind') in ('CXXConstructExpr', 'CXXTemporaryObjectExpr', 'CXXFunctionalCastExpr', 'InitListExpr') and tmatch(RNG_T, n.get('type', {})):
+            args = [a for a in n.get('inner', []) if a.get('kind') != 'CXXDefaultArgExpr']
+            if len(args) == 1 and tmatch(RNG_T, look(args[0]).get('type', {})):
+                return self.rng(args[0])                         # copy of a generator
+            if len(args) == 1:
+                self.note('rng_t{seed}')
+                return self.seeded_from(args[0])                 # rng_t{seed}: what make_rng(seed) does
+            return unseeded                                      # rng_t{}: default seed -- not the seed parameter
         if n.get('kind') == 'DeclRefExpr':
             v = self.env.get(n['referencedDecl']['name'])
             if v is not None and v.s == 'Rng':
                 return v
+            if v is None and tmatch(RNG_T, n.get('type', {})):
+                self.note('rng that is not a local of the function')
+                return unseeded                                  # namespace-scope / class-static generator: state shared between calls
         raise Unsupported(f'{self.name}: rng expression of kind {n.get("kind")}')
+
+    def seeded_from(self, a):
+        try:
+            s = self.ev(a)
+        except Unsupported:
+            # not an expression over the arguments / parameters (a global seed, std::random_device{}(), a clock ..)
+            self.note('rng seed that is not a function of the arguments')
+            return V('rng', 'Rng', ('false', '0'))
+        if s.s != 'Int':
+            raise Unsupported('rng seed is not an integer')
+        return V('rng', 'Rng', ('true', s.t))
 
     def range_of(self, what, b, e, n):
         """[b, e) as (vector id, begin offset, end offset); obligations: same vector, 0 <= b <= e <= size"""
@@ -284,6 +307,12 @@ def construct_hook(wp, n):
 def decl_hook(wp, v, init):
     t = v['type']
     name = v['name']
+    if v.get('storageClass') == 'static' and not v.get('constexpr') and not qual(t).startswith('const '):
+        # a mutable function-local static survives the call: the result would depend on the call history (e.g. a static rng)
+        wp.oblige('no_static_state: the function keeps no mutable function-local static (its result is a function of its arguments and parameters only)', 'false', v)
+    if re.search(r'^std::random_device$', strip_cv(qual(t))):
+        wp.env[name] = V(name, 'RandomDevice')
+        return True
     if tmatch(SPLITS_T, t):
         if init and look(init[0]).get('inner'):
             raise Unsupported('splits_t constructed with arguments')
